@@ -20,7 +20,7 @@ import (
 	"strings"
 )
 
-func exprText(fset *token.FileSet, e ast.Node) string {
+func rsExprText(fset *token.FileSet, e ast.Node) string {
 	var b bytes.Buffer
 	printer.Fprint(&b, fset, e)
 	return strings.Join(strings.Fields(b.String()), " ")
@@ -101,14 +101,14 @@ func ifConds(fset *token.FileSet, body *ast.BlockStmt) []string {
 	var res []string
 	ast.Inspect(body, func(n ast.Node) bool {
 		if is, ok := n.(*ast.IfStmt); ok {
-			res = append(res, exprText(fset, is.Cond))
+			res = append(res, rsExprText(fset, is.Cond))
 		}
 		return true
 	})
 	return res
 }
 
-func leanStrList(xs []string) string {
+func rsLeanStrList(xs []string) string {
 	parts := make([]string, len(xs))
 	for i, x := range xs {
 		parts[i] = leanStr(x)
@@ -342,7 +342,7 @@ func init() {
 					cs = append(cs, x)
 				}
 			}
-			sb.WriteString(fmt.Sprintf("/-- `if` conditions of %s.%s, in source order -/\ndef %s : List String :=\n  %s\n\n", c.recv, c.fn, c.lean, leanStrList(cs)))
+			sb.WriteString(fmt.Sprintf("/-- `if` conditions of %s.%s, in source order -/\ndef %s : List String :=\n  %s\n\n", c.recv, c.fn, c.lean, rsLeanStrList(cs)))
 		}
 
 		// ---- constants
@@ -446,4 +446,4 @@ func init() {
 	})
 }
 
-func exprTextNoPos(e ast.Expr) string { return exprText(token.NewFileSet(), e) }
+func exprTextNoPos(e ast.Expr) string { return rsExprText(token.NewFileSet(), e) }
